@@ -10,6 +10,8 @@ pub mod c05_l2;
 pub mod c06;
 pub mod c07;
 pub mod c08;
+pub mod c09;
+pub mod c09_san;
 pub mod c10;
 pub mod c11;
 pub mod c11_l2;
@@ -35,6 +37,7 @@ pub fn dispatch(args: &Args) -> i32 {
         "C06" => c06::run(args),
         "C07" => c07::run(args),
         "C08" => c08::run(args),
+        "C09" => c09::run(args),
         "C10" => c10::run(args),
         "C11" => c11::run(args),
         "C12" => c12::run(args),
